@@ -279,6 +279,7 @@ def c11(ctx):
 
 @prop("C07")
 def c07(ctx):
+    py_traces(ctx, ["ans", "range"])          # pos()/seek() through the Python API, validated exactly
     range_traces(ctx, exact=False)
     range_steered(ctx, exact=False)
     ans_states(ctx, ["TypeInv", "StateInv", "LawAppendOnly", "LawPopAfterPush"], "c01", widths=[(2, 4, 3, 2), (3, 6, 3, 1)])
@@ -289,6 +290,8 @@ def c07(ctx):
 
 @prop("C09")
 def c09(ctx):
+    py_traces(ctx, ["ans", "range"])          # impossible symbols through the Python API: refused, coder unchanged
+    ctx.require("py_enc_refused")
     ans_states(ctx, ["TypeInv", "StateInv", "LawPopAfterPush"], "c09")
     ctx.require("backend_full")
     range_hists(ctx, ["TypeInv", "StateInv"], "c09")
